@@ -259,4 +259,22 @@ func checkC14(c *core.Ctx) {
 		}
 		convCLI(c, "long", i, k, b.String())
 	})
+	// chains made of runs: stretches of fifths (1..14 equal steps, up or down) in which single steps cancel, p and r
+	// in between now and then - what a uniform draw of letters practically never produces (round 10, C14-mutR10a: a
+	// simplifier of cancelling steps that cuts "twelve fifths" too early after a cancellation inside a stretch)
+	c.Stream("runs", c.N(400, 4000), func(i int, r *rand.Rand) {
+		k := keys[r.Intn(len(keys))]
+		var b strings.Builder
+		for b.Len() < 10+r.Intn(40) {
+			switch r.Intn(8) {
+			case 0:
+				b.WriteByte("pr"[r.Intn(2)])
+			case 1:
+				b.WriteString([]string{"ds", "sd", "dds", "ssd", "dsd", "sds", "pp", "rr"}[r.Intn(8)])
+			default:
+				b.WriteString(strings.Repeat(string("ds"[r.Intn(2)]), 1+r.Intn(14)))
+			}
+		}
+		convCLI(c, "runs", i, k, b.String())
+	})
 }
